@@ -51,12 +51,46 @@ func checkC05(c *Ctx, r *Report) {
 		"R2 with shared==true every return of a cached result passes Close of the shared handle and a fresh Cache.Get whose entry replaces the shared one, or leaves through fetchDirectlyFromUpstream",
 		"R3 no single-use object escapes the closure: every non-error return of getFromCacheOrFetch is a cached result (Type != Direct); direct results are closed and turned into ErrNotCacheable; followers of an uncacheable leader fetch their own response with their own request",
 		"R4 the shared fetch runs with a context detached from the leader's cancellation (WithoutCancel/Background), not with the leader's request context",
+		"R6 a request carrying a body (ContentLength != 0) is relayed directly: the shared flight and fetchUpstream (with its second-send fallbacks) are reachable in dedupFetch only under req.ContentLength == 0",
 		"R5 inside the flight, request headers are added only to a Clone of the request (the flight's request shares its header map with the leader's), so a fallback to per-client fetches sends every client's own request",
 	}
 	r.NotDec = []string{"'exactly one' origin request under every arrival order (singleflight timing)", "slow readers", "completeness of bodies as bytes"}
 	li := BuildLocks(c)
 	fs := c.FuncsNamed(fetcherT + "dedupFetch")
 	gs := c.FuncsNamed(fetcherT + "getFromCacheOrFetch")
+	// R6: a request body can be read once and comes from one client's connection: a request that carries one is
+	// neither handed to the shared flight (the leader's half-sent body would fail every follower) nor sent a
+	// second time after a cache-side failure (the body is already consumed) — in dedupFetch the flight and every
+	// fetchUpstream call are reachable only for body-less requests
+	for _, f := range fs {
+		n6 := 0
+		eachInstr(f, func(in ssa.Instruction) {
+			call, ok := in.(*ssa.Call)
+			if !ok {
+				return
+			}
+			n := calleeName(call)
+			what := ""
+			switch {
+			case strings.HasSuffix(n, "singleflight.Group).Do"):
+				what = "the shared flight"
+			case n == fetcherT+"fetchUpstream":
+				what = "fetchUpstream (which falls back to a second send)"
+			default:
+				return
+			}
+			n6++
+			fsx := factStrs(f, call)
+			bodyless := false
+			for k := range fsx {
+				if strings.HasSuffix(k, ".ContentLength==0=true") {
+					bodyless = true
+				}
+			}
+			r.Check(bodyless, "C05.R6", fmt.Sprintf("dedupFetch: %s only for requests without a body (#%d)", what, n6), c.InstrPos(call), "dominated by req.ContentLength == 0", "a request that carries a body reaches "+what+": its body streams from one client's connection (a leader that hangs up mid-body fails every coalesced follower with 502) and is gone when the request is sent again after a cache-side failure")
+		})
+		r.Floor("C05.R6", n6, 2, "flight / fetchUpstream call sites in dedupFetch")
+	}
 	// R5: the request object handed to the flight shares its header map with the leader's own request
 	// (WithContext makes a shallow copy): whatever the flight adds to a request it adds to a Clone
 	if len(gs) > 0 {
